@@ -144,3 +144,81 @@ def physical_observables(ref, calc, length_factor, fc_factor, nac=True, method=N
         finally:
             os.chdir(old)
     return dict(fq=fq, fg=fg, th=th)
+
+
+# ---------------------------------------------------------------------------
+# the route by which the calculator reaches phonopy.load() (UnitsRoute.tla)
+# ---------------------------------------------------------------------------
+ROUTES = ("arg", "yaml", "disp", "conflict")
+NAC_MODES = ("none", "params", "born")
+
+
+def _born_text(ref):
+    """BORN file WITHOUT a factor in its first line (-> the calculator's default)."""
+    rows = ["# epsilon and Z* of atoms 1 2", " ".join("%.10f" % x for x in ref["eps"].ravel())]
+    rows += [" ".join("%.10f" % x for x in z.ravel()) for z in ref["born"]]
+    return "\n".join(rows) + "\n"
+
+
+def route_observables(ref, calc, length_factor, fc_factor, route, nacmode, other):
+    """The reference crystal in `calc`'s units reaches load() by `route`; returns what the
+    resulting Phonopy object reports and computes."""
+    import contextlib
+    import io
+    import os
+    import tempfile
+    import warnings
+
+    import phonopy
+    from phonopy import Phonopy
+    from phonopy.structure.atoms import PhonopyAtoms
+
+    u = ref["unit"]
+    cell = PhonopyAtoms(symbols=u.symbols, cell=u.cell / length_factor, scaled_positions=u.scaled_positions,
+                        masses=u.masses)
+    fc = ref["fc"] / fc_factor
+    nac_kw = {}
+    if nacmode == "none":
+        nac_kw = dict(is_nac=False)
+    elif nacmode == "params":
+        nac_kw = dict(is_nac=True, nac_params=dict(born=ref["born"].copy(), dielectric=ref["eps"].copy(), method="wang"))
+    old = os.getcwd()
+    with tempfile.TemporaryDirectory(prefix="c17r_") as d:
+        os.chdir(d)
+        try:
+            with contextlib.redirect_stdout(io.StringIO()), warnings.catch_warnings():
+                warnings.simplefilter("ignore")
+                common = dict(produce_fc=False, log_level=0)
+                if route == "arg":
+                    src = None
+                    kw = dict(unitcell=cell, supercell_matrix=ref["S"], primitive_matrix=np.eye(3), calculator=calc)
+                else:
+                    # the file a run of phonopy with this calculator leaves behind
+                    rec = other if route == "conflict" else calc
+                    ph0 = phonopy.load(unitcell=cell, supercell_matrix=ref["S"], primitive_matrix=np.eye(3),
+                                       calculator=rec, is_nac=False, **common)
+                    if route == "disp":
+                        ph0.generate_displacements(distance=0.01 / length_factor)
+                        ph0.save("phonopy_disp.yaml")
+                        src = "phonopy_disp.yaml"
+                    else:
+                        ph0.force_constants = fc
+                        ph0.save("phonopy_params.yaml", settings={"force_constants": True})
+                        src = "phonopy_params.yaml"
+                    kw = dict(calculator=calc) if route == "conflict" else {}
+                if nacmode == "born":      # written only now: ph0 above must not pick it up
+                    with open("BORN", "w") as f:
+                        f.write(_born_text(ref))
+                    nac_kw = dict(is_nac=True)
+                ph = phonopy.load(src, **kw, **nac_kw, **common) if src else phonopy.load(**kw, **nac_kw, **common)
+                ph.force_constants = fc
+                ph.run_qpoints(QPTS)
+                fq = ph.get_qpoints_dict()["frequencies"].copy()
+                ph.run_qpoints([[0, 0, 0]], nac_q_direction=[1, 0, 0] if nacmode != "none" else None)
+                fg = ph.get_qpoints_dict()["frequencies"][0].copy()
+                npar = ph.nac_params
+        finally:
+            os.chdir(old)
+    return dict(reported=str(ph.calculator), factor=float(ph.unit_conversion_factor),
+                nac=(None if not npar or "factor" not in npar else float(npar["factor"])), fq=fq, fg=fg,
+                th=np.zeros((3, 4)))
